@@ -30,6 +30,12 @@ def milkOp : P String := do
   let pop := (List.range n).map (milkingHerd herds flags)
   pure (outFs (pop.map fun p => milkMonth p y mk wd wr) ++ " " ++ outFs pop)
 
-def ops : List (String × P String) := [("coupling.meat", meatOp), ("coupling.milk", milkOp)]
+/-- coupling.perhead kgChicken kgPig hasOverride kgLarge → the five per-head yields -/
+def perHeadOp : P String := do
+  let kc ← float; let kp ← float; let has ← bool; let kl ← float
+  let k := perHeadOf kc kp (if has then some kl else none)
+  pure (outFs [k.chicken, k.pig, k.small, k.medium, k.large])
+
+def ops : List (String × P String) := [("coupling.meat", meatOp), ("coupling.milk", milkOp), ("coupling.perhead", perHeadOp)]
 
 end Ops.Coupling
